@@ -34,6 +34,7 @@ type c15Opt struct {
 	Indent          int // -1: not given
 	ExitStatus      bool
 	Null, Slurp     bool
+	RawIn           bool `json:",omitempty"` // --raw-input: the inputs are the lines of the stream (with --slurp: its whole text)
 }
 
 type c15Case struct {
@@ -199,7 +200,18 @@ func (it *c15Iter) Next() (any, bool) {
 	return v, true
 }
 
-func c15NewIter(stdin []byte, slurp bool) *c15Iter {
+func c15NewIter(stdin []byte, slurp, rawIn bool) *c15Iter {
+	if rawIn {
+		if slurp {
+			return &c15Iter{items: []any{string(stdin)}}
+		}
+		var lines []any
+		for rest := string(stdin); rest != ""; {
+			line, tail, _ := strings.Cut(rest, "\n")
+			lines, rest = append(lines, line), tail
+		}
+		return &c15Iter{items: lines}
+	}
 	docs, malformed := c15Decode(stdin)
 	if slurp {
 		// the whole stream is one input: an array of all documents, or, when the
@@ -252,7 +264,7 @@ func c15Model(t c15Case, f c15Fmt) (exp c15Exp, inconclusive string) {
 	if err != nil {
 		return c15Exp{Fmt: f, Class: "exit3", Code: 3, Diags: 1}, ""
 	}
-	it := c15NewIter(t.Stdin, t.Opt.Slurp)
+	it := c15NewIter(t.Stdin, t.Opt.Slurp, t.Opt.RawIn)
 	code, err := gojq.Compile(q, gojq.WithInputIter(it))
 	if err != nil {
 		return c15Exp{Fmt: f, Class: "exit3", Code: 3, Diags: 1}, ""
